@@ -52,7 +52,8 @@ fn mt_run(prop: &str, run: u64) -> bool {
 
 fn mt_flavour(prop: &str) -> MtFlavour {
     match prop {
-        "C02" | "C08" | "C03" | "C04" => MtFlavour::Safety,
+        "C02" | "C08" | "C03" => MtFlavour::Safety,
+        "C04" => MtFlavour::Boundary,
         "C07" => MtFlavour::Liveness,
         "C12" => MtFlavour::Hb,
         _ => MtFlavour::Lifecycle,
